@@ -19,4 +19,4 @@ For each change i in 1..3 create the directory {wt}_out/<i>/ containing:
 - patch.diff : `git diff` of the change against the worktree's HEAD (only the library change, not the demonstration), applicable with `git apply`;
 - a demonstration: a Go test file (say where it must be placed, e.g. demo_test.go in package xmpp_test at the repository root) or small program that FAILS with the change applied and PASSES on the unchanged worktree — run it both ways and report the outputs. The demonstration may use anything in the repository (including internal test helpers) and the standard library; for schedule-dependent breaks make it reasonably reliable (loops, the race detector via `go test -race`, or a deterministic forcing trick) and say how reliable it is;
 - meta.json : {{"property": "{pid}", "summary": "...", "needs_to_manifest": "...", "files_touched": [...], "tests_run": "...", "demo_how_to_run": "...", "demo_result_with_patch": "...", "demo_result_without_patch": "..."}}.
-After saving each change, restore the worktree (git checkout -- . && git clean -fd) before starting the next, so that each patch is relative to the pristine HEAD. Leave the worktree pristine at the end. Your final message should list the three changes with a one-paragraph description each and the exact commands you used to verify them.""")
+After saving each change, restore the worktree (git checkout -- . && git clean -fd; never use git stash: the stash is shared between all worktrees of this repository) before starting the next, so that each patch is relative to the pristine HEAD. Leave the worktree pristine at the end. Your final message should list the three changes with a one-paragraph description each and the exact commands you used to verify them.""")
